@@ -690,15 +690,36 @@ class World:
             cli.check(paths=paths, exclude=ex or None, quiet=quiet, verbose=False)
         return self.run_process(fn, nonce, cwd, None, False, set_policy, walk_policy)
 
-    def report(self, fmt, nonce, spelling=None):
+    @property
+    def baseline_file(self):
+        return os.path.join(self.outside, "baseline.json")
+
+    def op_save_baseline(self, version=None):
+        """Keep a copy of the current report as a comparison baseline (`report --diff FILE`),
+        optionally stamped as written by another version."""
+        d = self.cache_json()
+        if not isinstance(d, dict) or "codebase" not in d:
+            return {"noop": "no_valid_cache"}
+        if version is not None:
+            if version == "<absent>":
+                d.pop("version", None)
+            else:
+                d["version"] = version
+        write_bytes(self.baseline_file, json.dumps(d, indent=2).encode())
+        return {"version": d.get("version")}
+
+    def report(self, fmt, nonce, spelling=None, diff=False):
         import codelimit.__main__ as cli
         from codelimit.common.report.ReportFormat import ReportFormat
         from pathlib import Path
         cwd, arg = self._spelling(spelling)
+        dpath = Path(self.baseline_file) if diff and os.path.isfile(self.baseline_file) else None
 
         def fn():
-            cli.report(path=Path(arg), diff=None, fmt=ReportFormat(fmt))
-        return self.run_process(fn, nonce, cwd)
+            cli.report(path=Path(arg), diff=dpath, fmt=ReportFormat(fmt))
+        obs = self.run_process(fn, nonce, cwd)
+        obs["diff_used"] = dpath is not None
+        return obs
 
     def findings(self, fmt, full, nonce, spelling=None):
         import codelimit.__main__ as cli
